@@ -153,7 +153,7 @@ func (e *Encoder) writeObject(data interface{}) (int, error) {
 			return 0, err
 		}
 	}
-	if byte(length) <= _objectTagMaxLen {
+	if length <= int(_objectTagMaxLen) {
 		if _, err := e.writeBT(byte(length) + _objectLenTagMin); err != nil {
 			return 0, err
 		}
